@@ -102,8 +102,26 @@ impl<'a, 'tcx> D<'a, 'tcx> {
             PatKind::Constant { value } => {
                 o.push(("k", J::s("Const")));
                 o.push(("v", J::s(format!("{}", value))));
+                if let Some(si) = value.try_to_leaf() {
+                    o.push(("bits", J::s(format!("{}", si.to_bits_unchecked()))));
+                }
             }
-            PatKind::Range(_) => o.push(("k", J::s("Range"))),
+            PatKind::Range(r) => {
+                o.push(("k", J::s("Range")));
+                let b = |x: &thir::PatRangeBoundary<'tcx>| -> J {
+                    match x {
+                        thir::PatRangeBoundary::Finite(v) => match &***v {
+                            ty::ValTreeKind::Leaf(si) => J::s(format!("{}", si.to_bits_unchecked())),
+                            _ => J::s("?"),
+                        },
+                        thir::PatRangeBoundary::NegInfinity => J::s("-inf"),
+                        thir::PatRangeBoundary::PosInfinity => J::s("+inf"),
+                    }
+                };
+                o.push(("lo", b(&r.lo)));
+                o.push(("hi", b(&r.hi)));
+                o.push(("incl", J::Bool(matches!(r.end, rustc_hir::RangeEnd::Included))));
+            }
             PatKind::Slice { prefix, slice, suffix } | PatKind::Array { prefix, slice, suffix } => {
                 o.push(("k", J::s("Slice")));
                 let mut v = vec![];
